@@ -147,6 +147,19 @@ def build(t, W):
         else:
             m, table = construct(lambda: operator.iand(a, b), [a, b])
         return m, "(EMerge %s %s %s)" % (tbl(table), ca, cb)
+    if k == "andl":      # merge with list operands: a & [b..] | a &= [b..] | merge(a, b0, [b1..])
+        from reservoirpy.ops import merge
+        a, ca = build(t[1], W)
+        bv = [build(x, W) for x in t[2]]
+        bo = [v for v, _ in bv]
+        if t[3] == "and":
+            thunk = lambda: a & bo
+        elif t[3] == "iand":
+            thunk = lambda: operator.iand(a, bo)
+        else:
+            thunk = lambda: merge(a, bo[0], bo[1:]) if len(bo) > 1 else merge(a, bo)
+        m, table = construct(thunk, [a] + bo)
+        return m, "(EMergeL %s %s [%s])" % (tbl(table), ca, ";".join(cb for _, cb in bv))
     raise ValueError(k)
 
 
@@ -221,6 +234,13 @@ def corner_cases():
         {"kind": "expr", "pool": p4, "expr": ["and", ["and", L(N(0), N(3)), L(N(1), N(3))], L(N(2), N(3))]},
         {"kind": "expr", "pool": p4, "expr": ["link", [N(0), N(1)], [N(2), N(3)], True, True]},
         {"kind": "expr", "pool": p4, "expr": L(L(N(0), N(1)), N(0))},
+        # merge with list operands (x & [y, z]; merge(x, y, [z, w]); m &= [y, z])
+        {"kind": "expr", "pool": p4, "expr": ["andl", N(0), [N(1), N(2)], "and"]},
+        {"kind": "expr", "pool": p4, "expr": ["andl", N(0), [N(1), L(N(2), N(3))], "merge"]},
+        {"kind": "expr", "pool": p4, "expr": ["andl", L(N(0), N(1)), [L(N(1), N(2)), N(3)], "iand"]},
+        # the exact shapes of the open finding fanin:predecessor-delivered-twice (a=1, b=2, c=3)
+        {"kind": "expr", "pool": p4, "expr": ["and", ["link", [N(1), N(2)], [N(3)], True, False], ["link", [N(1), N(2)], [N(3)], True, False]]},
+        {"kind": "expr", "pool": p4, "expr": ["and", ["link", [N(1), N(2)], [N(3)], True, False], L(N(1), N(3))]},
     ]
     return cases
 
@@ -251,6 +271,10 @@ def gen_tree(rng, n, depth, top=True, st=None):
         rs, rseq = side()
         return ["link", ls, rs, lseq, rseq]
     a = gen_tree(rng, n, depth - 1, False, st)
+    if rng.random() < 0.3:      # merge with a list operand
+        bs = [gen_tree(rng, n, max(0, depth - 2), False, st) if rng.random() < 0.3 else leaf() for _ in range(rng.randint(1, 3))]
+        kind = rng.choice(["and", "merge"] if a[0] == "n" else ["and", "iand", "merge"])
+        return ["andl", a, bs, kind]
     b = gen_tree(rng, n, depth - 1, False, st)
     if r < 0.88 or a[0] == "n":
         return ["and", a, b]
@@ -268,6 +292,8 @@ def inline(t, defs):
         return t
     if k == "link":
         return ["link", [inline(x, defs) for x in t[1]], [inline(x, defs) for x in t[2]], t[3], t[4]]
+    if k == "andl":
+        return ["andl", inline(t[1], defs), [inline(x, defs) for x in t[2]], t[3]]
     return [k, inline(t[1], defs), inline(t[2], defs)]
 
 
@@ -276,13 +302,29 @@ def _sets(obs):
                                      "ins": sorted(set(obs["ins"])), "outs": sorted(set(obs["outs"]))}
 
 
+def _obs4(o):
+    return "([%s], [%s], [%s], [%s])" % (";".join(map(str, o["order"])), ";".join("(%d,%d)" % tuple(e) for e in o["edges"]),
+                                        ";".join(map(str, o["ins"])), ";".join(map(str, o["outs"])))
+
+
+def _update_stmt(t):
+    """(variable index, operand trees) when the use is the statement `v &= e` / `v &= [e..]`, else None"""
+    if t[0] == "iand" and t[1][0] == "v":
+        return t[1][1], [t[2]]
+    if t[0] == "andl" and t[3] == "iand" and t[1][0] == "v":
+        return t[1][1], list(t[2])
+    return None
+
+
 def run_share(c):
     """lets: models bound to variables; uses: later expressions reusing them (left / right operand of >>, list member,
-    operand of & and of &=).  `v &= e` as a statement (["iand", ["v", j], e]) legitimately updates variable j in place.
-    Returns (W, parts, vars) with parts = [(label, variable-free tree, Gallina term, observation)], one per use and one per
-    variable re-observed at the very end; vars = [(j, observation when last bound, observation at the end)]."""
+    operand of & and of &=).  `v &= e` / `v &= [e..]` as a statement updates variable j in place when accepted and must
+    leave it untouched when rejected (cycle).
+    Returns (W, parts, finals, updates): parts = [(label, variable-free tree, Gallina term, observation, raw chk term or
+    None)], one per use and one per variable re-observed at the very end; finals = [(j, observation when last bound,
+    observation at the end)]; updates = [(j, accepted, observation before, observation after)]."""
     W = World(c["pool"])
-    defs, base, parts = [], [], []
+    defs, base, parts, updates = [], [], [], []
     for t in c["lets"]:
         m, term = build(t, W)
         W.vars.append(m)
@@ -291,33 +333,62 @@ def run_share(c):
         base.append(None if m is None else W.observe(m))
     for i, t in enumerate(c["uses"]):
         tree = inline(t, defs)
-        m, term = build(t, W)
-        obs = None if m is None else W.observe(m)
-        parts.append(("use%d" % i, tree, term, obs))
-        if t[0] == "iand" and t[1][0] == "v":           # in-place update of the variable (dead if the update raised)
-            j = t[1][1]
-            W.vars[j], W.vterms[j], defs[j], base[j] = m, term, tree, obs
+        upd = _update_stmt(t)
+        if upd is None or W.vars[upd[0]] is None:
+            m, term = build(t, W)
+            parts.append(("use%d" % i, tree, term, None if m is None else W.observe(m), None))
+            continue
+        j, bs = upd
+        obj, eold = W.vars[j], W.vterms[j]
+        bv = [build(x, W) for x in bs]
+        bo = [v for v, _ in bv]
+        bterms = "[%s]" % ";".join(cb for _, cb in bv)
+        if any(o is None for o in bo):          # an operand raised: the statement is never executed
+            parts.append(("use%d" % i, tree, "(EMergeL [] %s %s)" % (eold, bterms), None, None))
+            continue
+        before = W.observe(obj)
+        try:
+            m = operator.iand(obj, bo[0] if t[0] == "iand" else bo)
+            table = W.register_new(m)
+        except RuntimeError as e:
+            if not _is_cycle_error(e):
+                raise
+            m, table = None, []
+        after = W.observe(obj)
+        tb = "[" + ";".join("(%d,%d)" % p for p in table) + "]"
+        ret = None if m is None else W.observe(m)
+        raw = "chk_update %d %d [%s] %s %s %s %s %s" % (CAT_BASE, FALLBACK, ";".join(map(str, W.ucat)), eold, tb, bterms,
+                                                     "None" if ret is None else "(Some %s)" % _obs4(ret), _obs4(after))
+        parts.append(("use%d" % i, tree, "(EMergeL %s %s %s)" % (tb, eold, bterms), ret, raw))
+        updates.append((j, m is not None, before, after))
+        if m is not None:                        # accepted: the variable now denotes the merged model
+            W.vterms[j], defs[j], base[j] = "(EMergeL %s %s %s)" % (tb, eold, bterms), tree, after
     finals = []
     for j, m in enumerate(W.vars):
         if m is None:
             continue
         obs = W.observe(m)
-        parts.append(("var%d" % j, defs[j], W.vterms[j], obs))
+        parts.append(("var%d" % j, defs[j], W.vterms[j], obs, None))
         finals.append((j, base[j], obs))
-    return W, parts, finals
+    return W, parts, finals, updates
 
 
 def _judge_share(c):
     try:
-        W, parts, finals = run_share(c)
+        W, parts, finals, updates = run_share(c)
     except Exception as e:
         return _viol("exception:%s" % type(e).__name__, "valid sharing scenario raises %r" % (e,), c)
+    for j, accepted, before, after in updates:
+        if not accepted and _sets(before) != _sets(after):
+            return _viol("iand:rejected-update-modified-model",
+                         "an in-place merge (&=) rejected with the cycle RuntimeError left the model modified (variable %d)" % j,
+                         c, _sets(before), _sets(after))
     for j, before, after in finals:
         if _sets(before) != _sets(after):
             return _viol("sharing:operand-mutated",
                          "a model reused as an operand of later link / merge expressions is no longer the graph it was "
                          "(variable %d)" % j, c, _sets(before), _sets(after))
-    for label, tree, term, obs in parts:
+    for label, tree, term, obs, raw in parts:
         v = _check_model(c, tree, W, None if obs is None else True, obs)
         if v:
             v["what"] += " [%s of a scenario reusing operand models]" % label
@@ -339,7 +410,7 @@ def share_cases(rng, count):
         for _u in range(rng.randint(2, 4)):
             v = ["v", rng.randrange(len(lets))]
             sub = lambda: gen_tree(rng, n, 1, True, st) if rng.random() < 0.4 else leaf()
-            r = rng.randrange(9)
+            r = rng.randrange(12)
             if r <= 1:
                 uses.append(["link", [v], [sub()], False, False])               # left operand of >>
             elif r == 2:
@@ -354,8 +425,14 @@ def share_cases(rng, count):
                 uses.append(["and", sub(), v])
             elif r == 7:
                 uses.append(["iand", v, sub()])                                 # v &= e : updates the variable
-            else:
+            elif r == 8:
                 uses.append(["iand", gen_tree(rng, n, 1, True, st), v])        # operand of &= on the right
+            elif r == 9:                                                        # v &= x >> y over ANY nodes: often a cycle
+                uses.append(["iand", v, ["link", [["n", rng.randrange(n)]], [["n", rng.randrange(n)]], False, False]])
+            elif r == 10:
+                uses.append(["andl", v, [sub() for _k in range(rng.randint(1, 3))], "iand"])   # v &= [e..]
+            else:
+                uses.append(["andl", sub(), [v, leaf()], rng.choice(["and", "merge"])])        # member of a list operand of &
         out.append({"kind": "share", "pool": pool_of(rng, n, cats=0.05), "lets": lets, "uses": uses})
     # the lead's pattern: one trunk, two successive left-operand links, then a many-to-one link with a model on the right
     p = [{"name": x, "cat": False} for x in ("src", "res", "read1", "read2", "probe")]
@@ -363,6 +440,13 @@ def share_cases(rng, count):
     out.append({"kind": "share", "pool": p, "lets": [["link", [N(0)], [N(1)], False, False]],
                 "uses": [["link", [["v", 0]], [N(2)], False, False], ["link", [["v", 0]], [N(3)], False, False],
                          ["link", [["v", 0], N(2)], [["link", [N(3)], [N(4)], False, False]], True, False]]})
+    # rejected in-place update: m = p >> q >> r ; m &= r >> p (cycle) ; m must still be p >> q >> r and usable afterwards
+    p3 = [{"name": x, "cat": False} for x in ("p", "q", "r", "t")]
+    chain = ["link", [["link", [N(0)], [N(1)], False, False]], [N(2)], False, False]
+    out.append({"kind": "share", "pool": p3, "lets": [chain],
+                "uses": [["iand", ["v", 0], ["link", [N(2)], [N(0)], False, False]],
+                         ["link", [["v", 0]], [N(3)], False, False],
+                         ["andl", ["v", 0], [["link", [N(2)], [N(0)], False, False], N(3)], "iand"]]})
     return out
 
 
@@ -404,6 +488,12 @@ def ref_eval(t):
                 rins = {v for v in rv if not any(b == v for _, b in re_)}
                 E |= set(itertools.product(louts, rins))
         return V, E
+    if k == "andl":
+        V, E = ref_eval(t[1])
+        for x in t[2]:
+            xv, xe = ref_eval(x)
+            V, E = V | xv, E | xe
+        return V, E
     a, b = ref_eval(t[1]), ref_eval(t[2])
     return a[0] | b[0], a[1] | b[1]
 
@@ -422,7 +512,21 @@ def _judge(c):
     return _check_model(c, c["expr"], W, m, obs)
 
 
+def _has_andl(t):
+    if not isinstance(t, list) or not t:
+        return False
+    return t[0] == "andl" or any(_has_andl(x) for x in t if isinstance(x, list))
+
+
 def _check_model(c, tree, W, m, obs):
+    v = _check_model0(c, tree, W, m, obs)
+    if v and v["key"] in ("nodes:wrong-set", "edges:missing") and _has_andl(tree):
+        v["key"] = "merge:list-operand-ignored"
+        v["what"] = "merge / & / &= with a list operand does not contain every operand node and edge (" + v["what"] + ")"
+    return v
+
+
+def _check_model0(c, tree, W, m, obs):
     """the property's statement for one built model (obs) against the plain digraph denoted by the variable-free tree"""
     import networkx as nx
     V, E = ref_eval(tree)
@@ -434,9 +538,21 @@ def _check_model(c, tree, W, m, obs):
         if acyclic:
             return _viol("dag:rejected", "an acyclic graph is rejected with the cycle RuntimeError", c, "a Model", "RuntimeError")
         return None
-    if not acyclic:
-        return _viol("cycle:accepted", "a graph containing a directed cycle is accepted", c, "RuntimeError", obs)
     auto = lambda i: i >= CAT_BASE
+    if not acyclic:
+        # accepted although the denoted graph is cyclic: a cycle went through only if the model really holds all the
+        # denoted nodes and edges; otherwise the defect is the missing operand (reported by the checks below)
+        oe = [tuple(e) for e in obs["edges"]]
+
+        def leaves(v, seen=()):
+            out = []
+            for p, q in oe:
+                if q == v and p not in seen:
+                    out += leaves(p, seen + (p,)) if auto(p) else [p]
+            return out
+        holds_all = {v for v in obs["order"] if not auto(v)} == V and all(a in leaves(b) for a, b in E)
+        if holds_all:
+            return _viol("cycle:accepted", "a graph containing a directed cycle is accepted", c, "RuntimeError", obs)
     order, edges = obs["order"], [tuple(e) for e in obs["edges"]]
     if len(set(order)) != len(order):
         return _viol("nodes:duplicated", "a node occurs twice in Model.nodes", c, None, order)
@@ -582,6 +698,8 @@ def shift(t, k):
         return ["n", t[1] + k]
     if t[0] == "link":
         return ["link", [shift(x, k) for x in t[1]], [shift(x, k) for x in t[2]], t[3], t[4]]
+    if t[0] == "andl":
+        return ["andl", shift(t[1], k), [shift(x, k) for x in t[2]], t[3]]
     return [t[0], shift(t[1], k), shift(t[2], k)]
 
 
@@ -628,13 +746,13 @@ def correspondence(ctx):
     terms, keep, dist, nt = [], [], {}, set()
     for c in shares:
         try:
-            W, parts, finals = run_share(c)
+            W, parts, finals, updates = run_share(c)
         except Exception as e:
             terms.append("false")
             keep.append({"scenario": jsonable(c), "impl_error": repr(e)})
             continue
-        for label, tree, term, obs in parts:
-            terms.append(to_coq(c, W, term, obs))
+        for label, tree, term, obs, raw in parts:
+            terms.append(raw if raw is not None else to_coq(c, W, term, obs))
             keep.append({"scenario": jsonable(c), "part": label,
                          "observed": obs if obs is not None else "RuntimeError: Model has a cycle",
                          "term": terms[-1] if len(terms[-1]) < 600 else terms[-1][:600] + "..."})
